@@ -397,7 +397,11 @@ def gathers(fx):
 
 @contract("bellows.thread.EventLoopThread.force_stop.cancel_tasks_and_stop_loop", props=["C20"])
 def _(c):
-    c.closure("self", T.ext(ELT))
+    # `self` is an object of the real class (its other methods resolve to their real source, should the helper be split)
+    c.closure("self", T.obj(ClassSpec("bellows.thread.EventLoopThread", fields=dict(loop=T.ext(STOPPABLE_LOOP), thread_complete=T.opaque))))
+    # the helper by its role, should it be renamed or become a method: the function of EventLoopThread that collects the
+    # loop's tasks
+    c.located_by = ("bellows.thread.EventLoopThread", "all_tasks(")
     c.ensures(
         "post.tasks_of_this_loop_are_cancelled_on_it",
         lambda self, fx: [r[3] for r in fx if r[0] == "asyncio.all_tasks"] == [{"loop": self.loop}]
